@@ -18,9 +18,11 @@ def main():
     base = json.load(open(os.path.join(VERIF, "tools", "manifest_base.json")))
     props = [json.loads(l)["id"] for l in open(os.path.join(VERIF, "properties.jsonl")) if l.strip()]
     checks, engines, claimed = [], {}, set()
+    ready_file = os.path.join(VERIF, "checks", "READY")
+    ready = set(open(ready_file).read().split()) if os.path.exists(ready_file) else None
     for pid in props:
         p = os.path.join(VERIF, "checks", f"{pid}.py")
-        if not os.path.exists(p):
+        if not os.path.exists(p) or (ready is not None and pid not in ready):
             continue
         c = load(p)
         m = c.MANIFEST
